@@ -5,7 +5,9 @@ package main
 
 import (
 	"fmt"
+	"os"
 	"reflect"
+	"regexp"
 	"sort"
 	"strings"
 
@@ -38,6 +40,8 @@ func menusFor(g *vlib.G) blasMenus {
 		m.band = []int{0, 1, 2, 3, 5}
 		m.dims1 = []int{0, 1, 2, 3, 5, 8, 9, 16, 17, 33, 64, 65}
 		m.dims2 = []int{0, 1, 2, 3, 5, 9}
+		m.dims = []int{0, 1, 2, 3, 5, 9}
+		m.incs = []int{-3, -2, -1, 1, 2, 3}
 		m.scalars = [][2]complex128{{2, 3}, {0, 3}, {0, 1}, {1, 0}}
 	}
 	return m
@@ -287,6 +291,33 @@ func genBlasTable(g *vlib.G) {
 		sort.Strings(extra)
 		if len(missing) > 0 || len(extra) > 0 {
 			t.Failf("spec table and gonum.Implementation disagree: not exactly once %v, not methods %v", missing, extra)
+		}
+		// the hand-copied message lists must equal the errors.go files of the tree (when readable)
+		for _, f := range []struct {
+			path string
+			have map[string]bool
+			skip map[string]bool
+		}{
+			{"/repo/blas/gonum/errors.go", blasMsgs, nil},
+			{"/repo/lapack/gonum/errors.go", lapackMsgs, map[string]bool{"lapack: n < min(m,k)": true, "lapack: m < min(n,k)": true}},
+		} {
+			src, err := os.ReadFile(f.path)
+			if err != nil {
+				continue
+			}
+			inFile := map[string]bool{}
+			for _, m := range regexp.MustCompile(`=\s*"((?:blas|lapack): [^"]+)"`).FindAllStringSubmatch(string(src), -1) {
+				inFile[m[1]] = true
+				if !f.have[m[1]] {
+					t.Failf("%s defines %q, which the harness's copy of the list lacks", f.path, m[1])
+				}
+			}
+			for m := range f.have {
+				if !inFile[m] && !f.skip[m] {
+					t.Failf("the harness lists %q, which %s does not define", m, f.path)
+				}
+			}
+			t.Count("message_lists_compared_with_errors_go", 1)
 		}
 		t.Count("blas_methods_in_table", int64(ty.NumMethod()))
 		t.Outcome(fmt.Sprintf("methods=%d", ty.NumMethod()))
